@@ -42,8 +42,10 @@ impl Ledger {
         if alloc_all {
             let huges = frames / HUGE_FRAMES;
             for h in 0..huges {
-                l.held
-                    .insert(h * HUGE_FRAMES, Block::new(h * HUGE_FRAMES, crate::model::HUGE_ORDER));
+                l.held.insert(
+                    h * HUGE_FRAMES,
+                    Block::new(h * HUGE_FRAMES, crate::model::HUGE_ORDER),
+                );
             }
             for f in huges * HUGE_FRAMES..frames {
                 l.held.insert(f, Block::new(f, 0));
@@ -82,7 +84,9 @@ impl Ledger {
         };
         if let Call::Put { frame, order, .. } = call
             && *order < 64
-            && frame.checked_add(1usize << order).is_some_and(|e| e <= self.frames)
+            && frame
+                .checked_add(1usize << order)
+                .is_some_and(|e| e <= self.frames)
         {
             let b = Block::new(*frame, *order);
             inf.removed = self.overlapping(&b);
@@ -293,7 +297,9 @@ impl Crash {
                             v.push(Violation::new(
                                 "C05",
                                 format!("R3-query-{}", panic_signature(&msg, &loc)),
-                                format!("query on the recovered allocator panicked: {msg} at {loc}"),
+                                format!(
+                                    "query on the recovered allocator panicked: {msg} at {loc}"
+                                ),
                             ));
                             Vec::new()
                         }
@@ -346,7 +352,10 @@ impl Crash {
         for f in 0..self.cfg.frames {
             if !covered[f] && !touched[f] && bitmap[f] {
                 if std::env::var_os("LLSIM_DEBUG").is_some() {
-                    eprintln!("R2 debug: inflight={:?} version={}", self.ledger.inflight, self.version);
+                    eprintln!(
+                        "R2 debug: inflight={:?} version={}",
+                        self.ledger.inflight, self.version
+                    );
                 }
                 self.violations.push(Violation::new(
                     "C05",
